@@ -466,8 +466,8 @@ theorem sameFields_symm : ∀ (fs : List Fld) (vs : List EV) (gs : List Fld) (ws
 end
 
 theorem sameKind_symm (c c' : Cfg) (h : sameKind c c' = true) : sameKind c' c = true := by
-  simp only [sameKind, Bool.and_eq_true, beq_iff_eq] at h ⊢
-  exact ⟨h.1.symm, h.2.symm⟩
+  simp only [sameKind, beq_iff_eq] at h ⊢
+  exact h.symm
 
 theorem sameOp_symm (o o' : Op) (h : sameOp o o' = true) : sameOp o' o = true := by
   cases o <;> cases o' <;> simp_all [sameOp] <;> exact ⟨h.1.symm, h.2.symm⟩
